@@ -195,6 +195,22 @@ class Session:
             a.action_toggle_all()
         elif key == "r":
             a.action_restore_default()
+        elif key.startswith("goto:"):
+            # navigation shortcut = some number of cursor-down presses: highlight the k-th row of a kind
+            _, kind, kth = key.split(":")
+            st = self.state
+            rows = []
+            for i, node in enumerate(lst._menu_nodes):
+                if node is None:
+                    continue
+                if kind == "hidden" and not st._visible(node):
+                    rows.append(i)
+                elif kind == "menu" and node.is_menuconfig:
+                    rows.append(i)
+                elif kind == "last":
+                    rows = [i]
+            if rows:
+                self._highlight(rows[int(kth) % len(rows)])
         else:
             raise ValueError(key)
 
